@@ -46,7 +46,7 @@ var pool = []poolObj{
 	{"sym", "symbol", "'foo", false},
 	{"fsym", "symbol", "'c09-fn", false},
 	{"vsym", "symbol", "'c09-var", false},
-	{"keyword", "keyword", ":test", false},
+	{"keyword", "keyword", ":start", false}, // not :test - that designates the package named test
 	{"char", "character", `#\a`, false},
 	{"list3", "list", "'(1 2 3)", false},
 	{"list1", "list", "'(a)", false},
